@@ -87,9 +87,9 @@ def main(argv=None) -> int:
         cl["class:fuzz"] += 1
         for c in out.classes:
             cl[c] += 1
-        if out.nontrivial is not None and out.nontrivial not in state["seen"]:
-            if len(state["seen"]) < 200_000:
-                state["seen"].add(out.nontrivial)
+        if out.nontrivial is not None and out.nontrivial not in state["seen"] and len(state["seen"]) < 200_000:
+            # distinct non-trivial texts are counted up to this cap (a lower bound beyond it)
+            state["seen"].add(out.nontrivial)
             state["nontrivial"] += 1
             if len(state["keys"]) < 20_000:
                 state["keys"].append(out.nontrivial)
